@@ -108,6 +108,8 @@ ACCEPT_SAME = [("1+2*3", " 1 +\t2 /*c*/ * // d\n 3 "), ("var a=[1,2,3];a[1]", "v
                # a line break before ++ / -- ends the statement: the operator belongs to what follows
                ("var a=1,b=5;a\n++b;[a,b].join()", "'1,6'"), ("var a=1,b=5;a\n--b;[a,b].join()", "'1,4'"), ("var x;x=1\n++x\nx", "2"), ("var a=1;a++\na", "2"), ("var a=1;a ++;a", "2"),
                ("var a=1,b=5;a/* c\n */++b;[a,b].join()", "'1,6'"), ("var a=0;a++\n(a)", "1"), ("var a=[7];var i=0;i++\n[a][0][0]", "7"),
+               # `in` between ? and : of a conditional in a for header
+               ("var o={a:1},i;for(i=true?'a' in o:0;false;);i", "true"), ("var o={a:1},n=0;for(var i=(0?1:'a' in o)?0:5;i<2;i++)n++;n", "2"),
                # an elision is an element (it reads as undefined)
                ("[1,,2].length", "3"), ("[,].length", "1"), ("[1,,].length", "2"), ("[,,1,,].length", "4"), ("[1,,2][1]===undefined", "true"), ("[[1],,[2]].length", "3"), ("[1,].length", "1"),
                ("String([1,,3][2])", "'3'"),
